@@ -50,6 +50,7 @@ type Options struct {
 	TimerSlack time.Duration
 	KeepTrace  int // number of trailing trace lines to keep (0: 60)
 	FullTrace  bool
+	Dense      bool // statement-granularity scheduling points in all instrumented code for this run
 }
 
 type Result struct {
@@ -120,7 +121,12 @@ func (d *driver) tr(s string) {
 func Run(t *testing.T, w World, opt Options) (res Result) {
 	if opt.MaxSteps == 0 {
 		opt.MaxSteps = 200000
+		if opt.Dense {
+			opt.MaxSteps = 600000
+		}
 	}
+	simhook.DenseAll = opt.Dense
+	defer func() { simhook.DenseAll = false }()
 	defer func() {
 		if r := recover(); r != nil {
 			s := fmt.Sprint(r)
